@@ -219,13 +219,19 @@ def execute_metric(job):
     clock = geom.Clock(1.4e9, 0.125) if c["fmt"] == "euroc" else [geom.Clock(0, 1), geom.Clock(0, 0.125), geom.Clock(1.5e9, 0.125)][(n + seed) % 3]
     d = tempfile.mkdtemp(prefix="pm_", dir=core.workdir())
     try:
-        if c["fmt"] == "euroc":
+        kitti = c["fmt"] == "kitti"
+        if kitti:
+            write_input(os.path.join(d, "gt.txt"), c["ref"], "kitti", u, clock)
+            write_input(os.path.join(d, "est.txt"), c["est"], "kitti", u, clock)
+            argv = ["kitti", "gt.txt", "est.txt"]
+        elif c["fmt"] == "euroc":
             write_input(os.path.join(d, "gt.csv"), c["ref"], "euroc", u, clock)
             argv = ["euroc", "gt.csv", "est.txt"]
         else:
             write_input(os.path.join(d, "gt.txt"), c["ref"], "tum", u, clock)
             argv = ["tum", "gt.txt", "est.txt"]
-        write_input(os.path.join(d, "est.txt"), c["est"], "tum", u, clock)
+        if not kitti:
+            write_input(os.path.join(d, "est.txt"), c["est"], "tum", u, clock)
         argv += ["-r", RELARG[q["rel"]]]
         if q["down"]:
             argv += ["--downsample", str(q["down"])]
@@ -238,7 +244,8 @@ def execute_metric(job):
             argv += ["--t_start", repr(float(clock.g(q["lo"])) - slack)]
         if q["hi"] != 1000:
             argv += ["--t_end", repr(float(clock.g(q["hi"])) + slack)]
-        argv += ["--t_max_diff", repr(0.25 * clock.dt)]
+        if not kitti:
+            argv += ["--t_max_diff", repr(0.25 * clock.dt)]
         if q["off"]:
             argv += ["--t_offset", repr(q["off"] * clock.dt)]
         argv += {"none": [], "sim": ["-a", "-s"], "scale": ["-s"], "origin": ["--align_origin"], "scaleorigin": ["-s", "--align_origin"]}[q["mode"]]
@@ -249,18 +256,45 @@ def execute_metric(job):
         if c["tool"] == "rpe":
             if q["dunit"] == "m":
                 argv += ["--delta", repr(0.5 * q["delta"] * u), "--delta_unit", "m"] + (["--pairs_from_reference"] if q["fromref"] else [])
+            elif q["dunit"] in ("d", "r"):
+                argv += ["--delta", repr(float(q["delta"])) if q["dunit"] == "d" else repr(math.radians(q["delta"])), "--delta_unit", q["dunit"]]
+                argv += (["--pairs_from_reference"] if q["fromref"] else []) + (["--all_pairs"] if q["allpairs"] else [])
             else:
                 argv += ["--delta", str(q["delta"]), "--delta_unit", "f"] + (["--all_pairs"] if q["allpairs"] else [])
         cu = bool(q.get("cu"))
         if cu:
             argv += ["--change_unit", "mm" if q["rel"] == "trans" else "rad"]
         argv += ["--save_results", "out.zip", "--no_warnings"]
-        r = cli.run_cli(c["tool"], argv, d)
+        from evo.tools.settings import SETTINGS
+        old_zip = SETTINGS["save_traj_in_zip"]
+        if kitti:       # no stamps in the result: the remaining poses are identified through the reference stored in the archive
+            dict.__setitem__(SETTINGS, "save_traj_in_zip", True)
+        try:
+            r = cli.run_cli(c["tool"], argv, d)
+        finally:
+            dict.__setitem__(SETTINGS, "save_traj_in_zip", old_zip)
         if r["code"] != 0 or r["exc"] != "none" or not os.path.exists(os.path.join(d, "out.zip")):
             return {"out": "exit%s %s %s" % (r["code"], r["exc"], r["out"][-160:]), "err": [], "ts": [], "argv": argv}
         with zipfile.ZipFile(os.path.join(d, "out.zip")) as z:     # independent reader of the archive
             err = np.load(io.BytesIO(z.read("error_array.npy")))
-            ts = np.load(io.BytesIO(z.read("timestamps.npy")))
+            if kitti:
+                name = next((nm for nm in z.namelist() if nm.startswith("gt.txt")), None)
+                rows = [] if name is None else [[float(x) for x in ln.split()] for ln in z.read(name).decode().splitlines() if ln.strip()]
+                refpos = [np.array(p["p"], dtype=float) * u for p in c["ref"]["poses"]]
+                idx, k0 = [], 0
+                for row in rows:            # the stored reference is a sub-sequence of the input reference: recover the indices
+                    pos = np.array([row[3], row[7], row[11]])
+                    k = next((k for k in range(k0, len(refpos)) if np.max(np.abs(refpos[k] - pos)) < 1e-9 * max(1.0, u)), None)
+                    if k is None:
+                        idx.append(None)
+                    else:
+                        idx.append(k)
+                        k0 = k + 1
+                if c["tool"] == "rpe":
+                    idx = idx[1:]           # the first stored pose is the start of the first pair
+                ts = None
+            else:
+                ts = np.load(io.BytesIO(z.read("timestamps.npy")))
         vals = []
         for v in err:
             v = float(v)
@@ -275,7 +309,9 @@ def execute_metric(job):
             else:
                 vals.append(int(round(v * v)) if abs(v * v - round(v * v)) < 1e-6 * max(1.0, v * v) else -1)
         stamps = []
-        for t in ts:
+        if kitti:
+            stamps = [-99999 if k is None else c["ref"]["stamps"][k] for k in idx]
+        for t in ([] if kitti else ts):
             k = clock.a(float(t))
             if k is None and c["fmt"] == "euroc":
                 qk = (float(t) - clock.t0) / clock.dt
